@@ -42,7 +42,7 @@ def run_inter(case, mon):
     rng = gen.rng_for(case['seed'], case['idx'], 3)
     sample = None
     for k in range(5):
-        w = work_inter.draw(rng, maxsites=6, hostile=(k % 2 == 0))
+        w = work_inter.draw(rng, maxsites=6, hostile=(k % 2 == 0), noncentro=0.25)
         if w is None: continue
         crys, chem, sl, jn, N = w['crys'], w['chem'], w['sl'], w['jn'], w['N']
         if sample is None: sample = w['desc']
